@@ -960,6 +960,33 @@ def gen_resid(repo):
     out.append('end Flac.Gen')
     return '\n'.join(out) + '\n'
 
+def gen_crcio(repo):
+    """which part of an offered buffer `CrcWriter::write` / `CrcReader::read` fold into the checksum (crc.rs)"""
+    n = ' '.join(strip_comments(open(os.path.join(repo, 'src/crc.rs')).read()).split())
+    out = ['/- GENERATED by tools/translate.py from src/crc.rs (CrcWriter::write, CrcReader::read) — do not edit -/', 'namespace Flac.Gen', '']
+    def folded(kind, call, what):
+        m = re.search(r'fn ' + kind + r'\(&mut self, buf: &(?:mut )?\[u8\]\) -> std::io::Result<usize> \{ self\.' + call + r'\(buf\)\.inspect\(\|(\w+)\| \{ '
+                      r'self\.checksum = (.+?) \.iter\(\) \.copied\(\) \.fold\(self\.checksum, \|c, b\| c\.update\(b\)\); \}\) \}', n)
+        if not m:
+            raise ExtractError(f'{what}: expected `self.{call}(buf).inspect(|amt| {{ self.checksum = <slice>.iter().copied().fold(self.checksum, |c, b| c.update(b)); }})`')
+        v, sl = m.group(1), m.group(2).strip()
+        if v != '_' and sl in (f'buf[0..*{v}]', f'buf[..*{v}]', f'&buf[0..*{v}]', f'&buf[..*{v}]'):
+            return 'accepted'
+        if sl in ('buf', '&buf', 'buf[..]', '&buf[..]'):
+            return 'offered'
+        raise ExtractError(f'{what}: the folded slice `{sl}` is neither the accepted prefix nor the whole buffer')
+    w = folded('write', r'writer\.write', 'CrcWriter::write')
+    r = folded('read', r'reader\.read', 'CrcReader::read')
+    out.append('/-- `CrcWriter::write`: how many of the `offered` bytes go into the checksum when the wrapped writer accepted `accepted` of them -/\n'
+               f'def crcWriterFolded (offered accepted : Nat) : Nat := {w}\n')
+    out.append('/-- `CrcReader::read`: how many bytes of the `offered` buffer go into the checksum when the wrapped reader delivered `accepted` -/\n'
+               f'def crcReaderFolded (offered accepted : Nat) : Nat := {r}\n')
+    need = lambda pat, what: re.search(pat, n) or (_ for _ in ()).throw(ExtractError(f'{what}: expected shape not found'))
+    need(r'pub fn into_checksum\(self\) -> C \{ self\.checksum \}', 'CrcWriter::into_checksum')
+    need(r'fn flush\(&mut self\) -> std::io::Result<\(\)> \{ self\.writer\.flush\(\) \}', 'CrcWriter::flush')
+    out.append('end Flac.Gen')
+    return '\n'.join(out) + '\n'
+
 def gen_par(repo):
     """facts about the parallel feature of encode.rs (C18)"""
     n = ' '.join(strip_comments(open(os.path.join(repo, 'src/encode.rs')).read()).split())
@@ -1215,6 +1242,7 @@ GENERATORS = [
     ('Meta.lean', 'metadata constants, cue sheet limits and shape-checked facts', gen_meta),
     ('Par.lean', 'parallel feature facts', gen_par),
     ('Resid.lean', 'write_residuals facts behind the constant-block clause', gen_resid),
+    ('CrcIo.lean', 'which bytes CrcWriter::write / CrcReader::read checksum', gen_crcio),
     ('ShapesHdr.lean', 'frame header shapes', gen_shapes_hdr),
     ('ShapesRd.lean', 'reader shapes', gen_shapes_rd),
     ('ShapesEnc.lean', 'encoder-side shapes', gen_shapes_enc),
